@@ -131,7 +131,81 @@ type DispatchEntry struct {
 // MapLiteralDispatch finds map literals (MakeMap + MapUpdate with constant string keys) in the
 // library whose values are functions: the dispatch tables. Returned per containing function.
 func (c *Ctx) MapLiteralDispatch() map[*ssa.Function][]DispatchEntry {
+	if c.dispatchRows != nil {
+		return c.dispatchRows
+	}
 	out := map[*ssa.Function][]DispatchEntry{}
+	c.dispatchRows = out
+	// function-typed members and the functions stored into them (a table kept as a struct of handlers)
+	memberFn := map[string]*ssa.Function{}
+	memberAmbiguous := map[string]bool{}
+	for _, fn := range c.P.LibFns {
+		ir.EachInstr(fn, func(_ *ssa.BasicBlock, _ int, in ssa.Instruction) {
+			st, ok := in.(*ssa.Store)
+			if !ok {
+				return
+			}
+			fa, ok := st.Addr.(*ssa.FieldAddr)
+			if !ok {
+				return
+			}
+			if _, isSig := st.Val.Type().Underlying().(*types.Signature); !isSig {
+				return
+			}
+			key, _, _, _ := ir.FullField(fa)
+			t := funcValue(st.Val)
+			if key == "" || t == nil {
+				return
+			}
+			if prev, ok := memberFn[key]; ok && prev != t {
+				memberAmbiguous[key] = true
+			}
+			memberFn[key] = t
+		})
+	}
+	// a lookup function: compares a string parameter with constants and returns, per case, a function value (a
+	// function, a bound method, or a function-typed member that is assigned exactly one function in the library)
+	for _, fn := range c.P.LibFns {
+		if fn.Signature.Results().Len() == 0 {
+			continue
+		}
+		if _, isSig := fn.Signature.Results().At(0).Type().Underlying().(*types.Signature); !isSig {
+			continue
+		}
+		for _, b := range fn.Blocks {
+			if len(b.Instrs) == 0 {
+				continue
+			}
+			ifi, ok := b.Instrs[len(b.Instrs)-1].(*ssa.If)
+			if !ok {
+				continue
+			}
+			bin, ok := ifi.Cond.(*ssa.BinOp)
+			if !ok || bin.Op != token.EQL {
+				continue
+			}
+			k, isC := ir.ConstStr(bin.Y)
+			if _, isParam := bin.X.(*ssa.Parameter); !isC || !isParam {
+				continue
+			}
+			tb := b.Succs[0]
+			ret, ok := tb.Instrs[len(tb.Instrs)-1].(*ssa.Return)
+			if !ok || len(ret.Results) == 0 {
+				continue
+			}
+			v := ret.Results[0]
+			t := funcValue(v)
+			if t == nil {
+				if f, _, ok := ir.LoadedField(v); ok && !memberAmbiguous[f.Key()] {
+					t = memberFn[f.Key()]
+				}
+			}
+			if t == nil {
+				continue
+			}
+			out[fn] = append(out[fn], DispatchEntry{Method: k, Target: t, In: fn, Pos: tb.Instrs[0].Pos()})
+		}
+	}
 	for _, fn := range c.P.LibFns {
 		ir.EachInstr(fn, func(_ *ssa.BasicBlock, _ int, in ssa.Instruction) {
 			mu, ok := in.(*ssa.MapUpdate)
@@ -556,5 +630,87 @@ func helperOKFacts(c *Ctx, sc *ssa.Function, depth int) []fieldFact {
 		out = append(out, f)
 	}
 	sort.Slice(out, func(i, j int) bool { return out[i].Field < out[j].Field })
+	return out
+}
+
+// routeLookup is a place where a handler function is obtained for the method of a request, together with an ok flag:
+// a comma-ok lookup in a map of handler functions keyed by the request's method, or a call of a lookup function (one of
+// the functions MapLiteralDispatch attributes rows to) with the request's method as argument.
+type routeLookup struct {
+	fn   *ssa.Function
+	at   ssa.Instruction
+	val  ssa.Value // the handler function value
+	ok   ssa.Value // the found flag
+	call *ssa.Call // the dynamic call of val in fn (nil if none)
+}
+
+func (c *Ctx) routeLookups() []routeLookup {
+	var out []routeLookup
+	takesReq := func(t types.Type) bool {
+		sig, ok := t.Underlying().(*types.Signature)
+		if !ok {
+			return false
+		}
+		for i := 0; i < sig.Params().Len(); i++ {
+			if ir.TypeStr(sig.Params().At(i).Type()) == "*mcp.JSONRPCRequest" {
+				return true
+			}
+		}
+		return false
+	}
+	rows := c.MapLiteralDispatch()
+	for _, fn := range c.P.LibFns {
+		ir.EachInstr(fn, func(_ *ssa.BasicBlock, _ int, in ssa.Instruction) {
+			var tuple ssa.Value
+			switch x := in.(type) {
+			case *ssa.Lookup:
+				m, ok := x.X.Type().Underlying().(*types.Map)
+				if !ok || !x.CommaOk || !derivesFromMethod(x.Index) || !takesReq(m.Elem()) {
+					return
+				}
+				tuple = x
+			case *ssa.Call:
+				sc := ir.StaticCallee(x)
+				if sc == nil || len(rows[sc]) == 0 || sc.Signature.Results().Len() != 2 || !takesReq(sc.Signature.Results().At(0).Type()) {
+					return
+				}
+				byMethod := false
+				for _, a := range x.Call.Args {
+					if derivesFromMethod(a) {
+						byMethod = true
+					}
+				}
+				if !byMethod {
+					return
+				}
+				tuple = x
+			default:
+				return
+			}
+			rl := routeLookup{fn: fn, at: in}
+			if tuple.Referrers() != nil {
+				for _, r := range *tuple.Referrers() {
+					if ex, ok := r.(*ssa.Extract); ok {
+						if ex.Index == 0 {
+							rl.val = ex
+						} else {
+							rl.ok = ex
+						}
+					}
+				}
+			}
+			if rl.val == nil || rl.ok == nil {
+				return
+			}
+			if rl.val.Referrers() != nil {
+				for _, r := range *rl.val.Referrers() {
+					if call, ok := r.(*ssa.Call); ok && call.Call.Value == rl.val {
+						rl.call = call
+					}
+				}
+			}
+			out = append(out, rl)
+		})
+	}
 	return out
 }
